@@ -31,6 +31,7 @@ PID = "C24"
 T0 = datetime(2026, 1, 1, tzinfo=timezone.utc)
 TERMINAL = ("completed", "failed", "cancelled")
 HANDLERS = {"h1": ("r1", "wfa"), "h2": ("r2", "wfa"), "h3": ("r3", "wfb")}
+NORUN = ("h4", None, "wfa")  # a handler that is registered but has no run yet (run_id None)
 
 
 def drive(coro: Any) -> Any:
@@ -124,6 +125,7 @@ def ops() -> list[Any]:
             out.append(("update", hid, st))
     out.append(("update", "h1", "cancelled"))
     out.append(("rerun", "h1"))  # same handler id, new run id, running again
+    out += [("norun", "running"), ("norun", "completed")]  # upsert of the handler without a run
     out += [("move", "h1", "wfb"), ("move", "h3", "wfa")]  # same handler id written again under another workflow name
     out += [("status", "r1", "completed"), ("status", "r2", "failed"), ("status", "r9", "completed"), ("idle", "r1", True), ("idle", "r1", False),
             ("idle", "r3", True)]
@@ -139,6 +141,8 @@ def apply_store(store: Any, op: Any) -> Any:
             return await store.update(PersistentHandler(handler_id=op[1], workflow_name=wf, status=op[2], run_id=run, started_at=T0))
         if op[0] == "rerun":
             return await store.update(PersistentHandler(handler_id=op[1], workflow_name=HANDLERS[op[1]][1], status="running", run_id="r1b", started_at=T0))
+        if op[0] == "norun":
+            return await store.update(PersistentHandler(handler_id=NORUN[0], workflow_name=NORUN[2], status=op[1], run_id=None, started_at=T0))
         if op[0] == "move":
             return await store.update(PersistentHandler(handler_id=op[1], workflow_name=op[2], status="running", run_id=HANDLERS[op[1]][0], started_at=T0))
         if op[0] == "status":
@@ -159,6 +163,9 @@ def apply_ref(ref: Ref, op: Any) -> Any:
         return None
     if op[0] == "rerun":
         ref.write(op[1], {"handler_id": op[1], "workflow_name": HANDLERS[op[1]][1], "status": "running", "run_id": "r1b", "idle": None})
+        return None
+    if op[0] == "norun":
+        ref.write(NORUN[0], {"handler_id": NORUN[0], "workflow_name": NORUN[2], "status": op[1], "run_id": None, "idle": None})
         return None
     if op[0] == "move":
         ref.write(op[1], {"handler_id": op[1], "workflow_name": op[2], "status": "running", "run_id": HANDLERS[op[1]][0], "idle": None})
